@@ -693,7 +693,8 @@ func (s *Style) filler(sb *strings.Builder) {
 
 func (s *Style) heading(sb *strings.Builder, name string) {
 	h := name
-	if s != nil && s.Quotes && s.coin(6) {
+	if (s != nil && s.Quotes && s.coin(6)) || (strings.HasPrefix(name, "#") && (s == nil || s.Comment == 0 || s.Comment == '#')) {
+		// a name that begins with the comment character can only be a heading, and only in quotes
 		h = `"` + name + `"`
 	}
 	sb.WriteString(h + ":" + s.trail() + s.eol())
